@@ -1,5 +1,7 @@
 (* Property C12: standard containers behave as their abstract models under any operation sequence.
-   Only the property theorems, each closed by [exact] of a lemma and followed by Print Assumptions. *)
+   Only the property theorems, each closed by [exact] of a lemma (or of a conjunction of lemmas) and followed by
+   Print Assumptions.  Every predicate and function used in the statements is defined in Model.v (Part II for the
+   invariants, abstraction functions, runners and bounds). *)
 From Coq Require Import ZArith List Bool Lia Arith Permutation.
 From C12 Require Import Gen Model ProofsBase ProofsVec ProofsSeq ProofsAL ProofsHM1 ProofsHM2 ProofsFM ProofsHM3 ProofsHM4 ProofsHM5 ProofsHM6 ProofsHM7 ProofsHash ProofsSB ProofsSBA ProofsOOM ProofsDL.
 Import ListNotations.
@@ -27,7 +29,7 @@ Print Assumptions C12_vector_history_refines_list.
 
 Theorem C12_vector_observers : forall (T : Type) (v : vec T),
   vec_wf T v -> vec_len T v = length (vec_contents T v).
-Proof. intros. symmetry. apply contents_length. assumption. Qed.
+Proof. exact (fun T v W => eq_sym (contents_length T v W)). Qed.
 Print Assumptions C12_vector_observers.
 
 (* ---- sequence: same against (slot 0, list with 1-based positions), incl. auto-append at size+1 *)
@@ -53,7 +55,7 @@ Theorem C12_sequence_observers : forall (T : Type) (dflt : T) (s : seq T),
   seq_wf T s ->
   seq_contents T s = snd (seq_abs T dflt s) /\ seq_len T s = length (snd (seq_abs T dflt s)) /\
   seq_slot0 T dflt s = fst (seq_abs T dflt s).
-Proof. intros. split; [apply seq_contents_eq; assumption|]. split; [apply seq_len_eq; assumption|apply seq_slot0_eq]. Qed.
+Proof. exact seq_observers. Qed.
 Print Assumptions C12_sequence_observers.
 
 (* the repaired remove guard at full strength: a position outside 1..#s is stopped by the assertion *)
@@ -62,7 +64,7 @@ Theorem C12_sequence_remove_guard : forall (T : Type) (dflt : T) (pos : nat) (s 
 Proof. exact seq_remove_guard. Qed.
 Print Assumptions C12_sequence_remove_guard.
 
-(* ---- hashmap.  [hm_inv] (ProofsHM1.hm_inv_w) is the representation invariant: every bucket heads an acyclic
+(* ---- hashmap.  [hm_inv] (Model.hm_inv_w) is the representation invariant: every bucket heads an acyclic
    chain of filled nodes whose keys hash to that bucket, every filled node is on exactly its bucket's chain,
    the free list threads exactly the unfilled nodes, size = number of filled nodes, keys of distinct filled
    nodes are not ==, node capacity is tied to the bucket count by the load factor and one node is always free.
@@ -120,15 +122,14 @@ Theorem C12_hashmap_no_overflow_below_2p50 :
      (forall o, In o ops -> (Z.of_nat (hop_count K V o) < 2 ^ 50)%Z) ->
      hm_run K V kdflt vdflt keqb khash ops m <> Trap TrapOverflow).
 Proof.
-  intros K V kdflt vdflt keqb khash Hs Ht Hc. split.
-  - exact (hm_step_no_overflow K V kdflt vdflt keqb khash Hs Ht Hc).
-  - exact (hm_run_no_overflow K V kdflt vdflt keqb khash Hs Ht Hc).
+  exact (fun K V kdflt vdflt keqb khash Hs Ht Hc =>
+           conj (hm_step_no_overflow K V kdflt vdflt keqb khash Hs Ht Hc) (hm_run_no_overflow K V kdflt vdflt keqb khash Hs Ht Hc)).
 Qed.
 Print Assumptions C12_hashmap_no_overflow_below_2p50.
 
 Theorem C12_hashmap_empty_related :
   forall (K V : Type) (keqb : K -> K -> bool) (khash : K -> Z), hm_R K V keqb khash (hm_empty K V) [].
-Proof. intros. apply hm_R_empty. Qed.
+Proof. exact hm_R_empty. Qed.
 Print Assumptions C12_hashmap_empty_related.
 
 (* pairs() yields every binding exactly once: the visited list has keys pairwise not ==, as many entries
@@ -141,11 +142,7 @@ Theorem C12_hashmap_iteration_each_binding_once :
   forall m : hmap K V, hm_inv K V keqb khash m ->
   exists l, hm_pairs K V m = Ok l /\ keys_nodup K V keqb l /\ length l = hm_len K V m /\
             forall k, hm_peek K V keqb khash k m = Ok (al_get K V keqb k l).
-Proof.
-  intros K V keqb khash Hs Ht Hc m I. exists (hm_abs K V m).
-  split; [apply hm_pairs_ok|]. split; [destruct I as (ch & fl & I); eapply abs_nodup; eauto|].
-  split; [symmetry; apply (hm_len_abs K V keqb khash); assumption|]. intros k. apply hm_peek_ok; assumption.
-Qed.
+Proof. exact hm_iteration_once. Qed.
 Print Assumptions C12_hashmap_iteration_each_binding_once.
 
 (* next(m) is the first binding in iteration order; next(m, k) is the binding that follows k's binding (so a
@@ -202,10 +199,7 @@ Theorem C12_hashmap_rehash_preserves_bindings :
   (hm_rehash K V kdflt vdflt keqb khash n m = Trap TrapOverflow /\
    (2 ^ 62 < Z.of_nat (Nat.max n (ceilidiv (hsize K V m * 100) HM_MAXLF_n)))%Z) \/
   exists m', hm_rehash K V kdflt vdflt keqb khash n m = Ok m' /\ hm_inv K V keqb khash m' /\ hm_abs K V m' = hm_abs K V m.
-Proof.
-  intros K V kdflt vdflt keqb khash Hs n m I.
-  destruct (hm_rehash_op K V kdflt vdflt keqb khash Hs n m I) as [(A & B & _)|(m' & A & B & C & _)]; [left; auto|right; eauto].
-Qed.
+Proof. exact hm_rehash_bindings. Qed.
 Print Assumptions C12_hashmap_rehash_preserves_bindings.
 
 (* ---- the hashmap is a flat map: with ANY hash function that respects ==, every operation behaves exactly as the
@@ -231,9 +225,8 @@ Theorem C12_hashmap_is_flat_map :
      exists m' rs, hm_run K V kdflt vdflt keqb khash ops m = Ok (m', rs) /\ hm_inv K V keqb khash m' /\
                    fm_run K V kdflt vdflt keqb ops (canon K V m) = Ok (canon K V m', rs)).
 Proof.
-  intros K V kdflt vdflt keqb khash Hs Ht Hc. split.
-  - exact (hm_step_flat K V kdflt vdflt keqb khash Hs Ht Hc).
-  - exact (hm_run_flat K V kdflt vdflt keqb khash Hs Ht Hc).
+  exact (fun K V kdflt vdflt keqb khash Hs Ht Hc =>
+           conj (hm_step_flat K V kdflt vdflt keqb khash Hs Ht Hc) (hm_run_flat K V kdflt vdflt keqb khash Hs Ht Hc)).
 Qed.
 Print Assumptions C12_hashmap_is_flat_map.
 
@@ -258,11 +251,38 @@ Theorem C12_hashmap_hash_independent_exact :
      hm_abs K V m1 = hm_abs K V m2 /\ hm_len K V m1 = hm_len K V m2 /\ hm_capacity K V m1 = hm_capacity K V m2 /\
      hm_bucketcount K V m1 = hm_bucketcount K V m2 /\ hfree K V m1 = hfree K V m2).
 Proof.
-  intros K V kdflt vdflt keqb h1 h2 Hs Ht H1 H2. split.
-  - exact (hm_hash_independent_exact K V kdflt vdflt keqb h1 h2 Hs Ht H1 H2).
-  - exact (canon_observables K V).
+  exact (fun K V kdflt vdflt keqb h1 h2 Hs Ht H1 H2 =>
+           conj (hm_hash_independent_exact K V kdflt vdflt keqb h1 h2 Hs Ht H1 H2) (canon_observables K V)).
 Qed.
 Print Assumptions C12_hashmap_hash_independent_exact.
+
+(* the two history statements above without their Overflow branch: below 2^50 bindings + operations (and
+   reserve/rehash counts) every history runs to the end, exactly as the flat map, and identically for any two hash
+   functions respecting == *)
+Theorem C12_hashmap_histories_below_2p50 :
+  forall (K V : Type) (kdflt : K) (vdflt : V) (keqb : K -> K -> bool) (h1 h2 : K -> Z),
+  (forall a b, keqb a b = keqb b a) ->
+  (forall a b c, keqb a b = true -> keqb b c = true -> keqb a c = true) ->
+  (forall a b, keqb a b = true -> h1 a = h1 b) -> (forall a b, keqb a b = true -> h2 a = h2 b) ->
+  (forall (ops : list (hop K V)) (m : hmap K V), hm_inv K V keqb h1 m ->
+     (Z.of_nat (length (hm_abs K V m) + length ops) < 2 ^ 50)%Z ->
+     (forall o, In o ops -> (Z.of_nat (hop_count K V o) < 2 ^ 50)%Z) ->
+     exists m' rs, hm_run K V kdflt vdflt keqb h1 ops m = Ok (m', rs) /\ hm_inv K V keqb h1 m' /\
+                   fm_run K V kdflt vdflt keqb ops (canon K V m) = Ok (canon K V m', rs)) /\
+  (forall (ops : list (hop K V)) (m1 m2 : hmap K V),
+     hm_inv K V keqb h1 m1 -> hm_inv K V keqb h2 m2 -> canon K V m1 = canon K V m2 ->
+     (Z.of_nat (length (hm_abs K V m1) + length ops) < 2 ^ 50)%Z ->
+     (forall o, In o ops -> (Z.of_nat (hop_count K V o) < 2 ^ 50)%Z) ->
+     exists m1' m2' rs,
+       hm_run K V kdflt vdflt keqb h1 ops m1 = Ok (m1', rs) /\
+       hm_run K V kdflt vdflt keqb h2 ops m2 = Ok (m2', rs) /\
+       hm_inv K V keqb h1 m1' /\ hm_inv K V keqb h2 m2' /\ canon K V m1' = canon K V m2').
+Proof.
+  exact (fun K V kdflt vdflt keqb h1 h2 Hs Ht H1 H2 =>
+           conj (hm_run_flat_small K V kdflt vdflt keqb h1 Hs Ht H1)
+                (hm_hash_independent_small K V kdflt vdflt keqb h1 h2 Hs Ht H1 H2)).
+Qed.
+Print Assumptions C12_hashmap_histories_below_2p50.
 
 (* the weaker form for runs that start from states related only through an association list (their node orders
    may already differ): results agree up to the order of iteration results. *)
@@ -315,8 +335,7 @@ Theorem C12_hash_coherent_aggregates :
   (forall (A : Type) (ueq : A -> A -> bool) (uh : A -> Z), (forall x y, ueq x y = true -> uh x = uh y) ->
      forall x y, ueq x y = true -> hash_custom uh x = hash_custom uh y).
 Proof.
-  split; [exact hash_array_coherent|]. split; [exact hash_float_array_coherent|]. split; [exact hash_rec_is_fold|].
-  split; [exact hash_ptr_coherent|exact hash_custom_coherent].
+  exact (conj hash_array_coherent (conj hash_float_array_coherent (conj hash_rec_is_fold (conj hash_ptr_coherent hash_custom_coherent)))).
 Qed.
 Print Assumptions C12_hash_coherent_aggregates.
 
@@ -327,13 +346,13 @@ Theorem C12_hash_byte_loop_total :
   (forall data seed step, (1 <= step)%Z -> lhash_o data seed step = Some (lhash data seed step)) /\
   (forall data, lhash_o data HASH_SEED 1 = Some (hash_short data) /\
                 lhash_o data HASH_SEED (Z.shiftr (Z.of_nat (length data)) 5 + 1) = Some (hash_long data)).
-Proof. split; [exact lhash_total|exact hash_bytes_total]. Qed.
+Proof. exact (conj lhash_total hash_bytes_total). Qed.
 Print Assumptions C12_hash_byte_loop_total.
 
 Theorem C12_hash_coherent_integer_boolean :
   (forall a b : Z, (a =? b)%Z = true -> hash_int a = hash_int b) /\
   (forall a b : bool, Bool.eqb a b = true -> hash_bool a = hash_bool b).
-Proof. split; [exact hash_int_coherent|exact hash_bool_coherent]. Qed.
+Proof. exact (conj hash_int_coherent hash_bool_coherent). Qed.
 Print Assumptions C12_hash_coherent_integer_boolean.
 
 (* ---- stringbuilder: refinement to the byte string, for every operation used within its documented
@@ -404,7 +423,7 @@ Theorem C12_span_window_refines_list : forall (T : Type) (mem : list T) (s : spa
                | Trap t => spw_sub i j s = Trap t
                end).
 Proof.
-  intros T mem s W. split; [intro i; apply span_window_at; assumption|intros i j; apply span_window_sub; assumption].
+  exact (fun T mem s W => conj (fun i => span_window_at T mem s i W) (fun i j => span_window_sub T mem s i j W)).
 Qed.
 Print Assumptions C12_span_window_refines_list.
 
@@ -415,7 +434,7 @@ Theorem C12_span_guards : forall (T : Type) (i j : nat) (s : list T),
    (length s <= i -> span_at T i s = Trap TrapIndex)) /\
   ((i <= j /\ j <= length s -> span_sub T i j s = Ok (firstn (j - i) (skipn i s))) /\
    (~ (i <= j /\ j <= length s) -> span_sub T i j s = Trap TrapIndex)).
-Proof. intros. split; [apply span_at_guard|apply span_sub_guard]. Qed.
+Proof. exact (fun T i j s => conj (span_at_guard T i s) (span_sub_guard T i j s)). Qed.
 Print Assumptions C12_span_guards.
 
 (* ---- list (doubly linked): [dl_wf d idx]: idx lists the node indices front to back without repetition, every
@@ -462,9 +481,7 @@ Theorem C12_allocation_failure_aborts :
      hm_step_a K V kdflt vdflt keqb khash okn okb o m = Trap TrapOOM) /\
   (forall (T : Type) (teqb : T -> T -> bool) (okn : bool) (o : lop T) (l : dlist T),
      dl_step_a T teqb okn o l = dl_step T teqb o l \/ dl_step_a T teqb okn o l = Trap TrapOOM).
-Proof.
-  split; [exact vec_step_a_dich|]. split; [exact seq_step_a_dich|]. split; [exact hm_step_a_dich|exact dl_step_a_dich].
-Qed.
+Proof. exact (conj vec_step_a_dich (conj seq_step_a_dich (conj hm_step_a_dich dl_step_a_dich))). Qed.
 Print Assumptions C12_allocation_failure_aborts.
 
 Theorem C12_hashmap_rehash_request_sizes :
@@ -491,8 +508,8 @@ Theorem C12_destroy_resets :
   (forall (T : Type) (dflt : T) (teqb : T -> T -> bool) (d : dlist T) (idx : list nat), dl_wf T d idx ->
      exists d', dl_step T teqb (LDestroy T) d = Ok (d', LUnit T) /\ dl_wf T d' [] /\ dl_contents T d' = Ok []).
 Proof.
-  split; [reflexivity|]. split; [reflexivity|]. split; [reflexivity|]. split; [reflexivity|].
-  intros T dflt teqb d idx W. exact (dl_destroy_fresh T dflt teqb d idx W).
+  exact (conj (fun T dflt teqb v => eq_refl) (conj (fun T dflt teqb s => eq_refl)
+          (conj (fun K V kdflt vdflt keqb khash m => eq_refl) (conj (fun b => eq_refl) dl_destroy_fresh)))).
 Qed.
 Print Assumptions C12_destroy_resets.
 
